@@ -20,6 +20,7 @@ type RotCase struct {
 	Styled  bool       `json:"styled,omitempty"`
 	Debug   bool       `json:"debug,omitempty"`
 	NowUnix int64      `json:"now_unix"`
+	Config  string     `json:"config_ini,omitempty"`
 }
 
 type rotEngine struct{}
@@ -93,6 +94,33 @@ func (rotEngine) generate(property string, seed int64, index int, tier string) *
 	for i := 0; i < nc; i++ {
 		rc.Cmds = append(rc.Cmds, rotCommands[r.Intn(len(rotCommands))])
 	}
+	if r.Chance(1, 5) {
+		// a config file: other rendering and evaluation paths (colour schemes, formats, suppressed warnings)
+		var ini []string
+		if r.Chance(1, 2) {
+			ini = append(ini, "colour_scheme = "+r.Pick([]string{"dark", "light", "basic", "no_colour"}))
+		}
+		if r.Chance(1, 3) {
+			ini = append(ini, "no_warnings = "+r.Pick([]string{"UNCLOSED_OPEN_RANGE", "FUTURE_ENTRIES", "OVERLAPPING_RANGES", "MORE_THAN_24H", "UNCLOSED_OPEN_RANGE, MORE_THAN_24H", "OVERLAPPING_RANGES,FUTURE_ENTRIES"}))
+		}
+		if r.Chance(1, 3) {
+			ini = append(ini, "date_format = "+r.Pick([]string{"YYYY-MM-DD", "YYYY/MM/DD"}))
+		}
+		if r.Chance(1, 3) {
+			ini = append(ini, "time_convention = "+r.Pick([]string{"24h", "12h"}))
+		}
+		if r.Chance(1, 3) {
+			ini = append(ini, "default_rounding = "+r.Pick([]string{"5m", "15m", "60m"}))
+		}
+		if r.Chance(1, 3) {
+			ini = append(ini, "default_should_total = "+r.Pick([]string{"8h!", "30m!", "0m!", "-1h!"}))
+		}
+		rc.Config = strings.Join(ini, "\n") + "\n"
+	}
+	if r.Chance(1, 6) {
+		// the damaged text arrives through a pipe, the default bookmark or a named bookmark (read-only commands)
+		rc.Via = r.Pick([]string{"stdin", "stdin", "default", "bookmark"})
+	}
 	return &Scenario{Format: 1, Property: property, Engine: "rot", Seed: seed, Index: index, Tier: tier, Rot: rc}
 }
 
@@ -148,6 +176,10 @@ func (rotEngine) execute(sc *Scenario) *Outcome {
 	file := filepath.Join(root, "a.klg")
 	_ = os.MkdirAll(filepath.Join(root, "cfg"), 0o755)
 	env := map[string]string{"KLOG_CONFIG_HOME": filepath.Join(root, "cfg")}
+	if rc.Config != "" {
+		_ = os.WriteFile(filepath.Join(root, "cfg", "config.ini"), []byte(rc.Config), 0o644)
+		out.stat("with_config_file", 1)
+	}
 	if !rc.Styled {
 		env["NO_COLOR"] = "1"
 	}
@@ -164,8 +196,9 @@ func (rotEngine) execute(sc *Scenario) *Outcome {
 			continue
 		}
 		_ = os.WriteFile(file, []byte(text), 0o644)
-		argv := append(append([]string{}, cmd...), file)
-		spec := &ProcSpec{Argv: argv, Tape: rc.Tape, Cpus: rc.Cpus, Root: root, Env: env, Base: time.Unix(rc.NowUnix, 0).UTC()}
+		argv, stdin, how := deliver(rc.Via, cmd, file, filepath.Join(root, "cfg"))
+		out.stat("input_via_"+how, 1)
+		spec := &ProcSpec{Argv: argv, Tape: rc.Tape, Cpus: rc.Cpus, Root: root, Env: env, Stdin: stdin, Base: time.Unix(rc.NowUnix, 0).UTC()}
 		if cmd[0] == "pause" {
 			spec.LongRun = true
 			spec.Steps = []TimeStep{{AdvanceS: 61}, {JumpS: 3600}, {AdvanceS: 2}}
@@ -255,6 +288,12 @@ func (rotEngine) shrink(sc *Scenario) []*Scenario {
 	}
 	if rc.Debug {
 		add(func(c *RotCase) { c.Debug = false })
+	}
+	if rc.Via != "" {
+		add(func(c *RotCase) { c.Via = "" })
+	}
+	if rc.Config != "" {
+		add(func(c *RotCase) { c.Config = "" })
 	}
 	for _, t := range shrinkText(rc.text()) {
 		t := t
